@@ -105,7 +105,7 @@ func solutionsHandle(c map[string]J) map[string]J {
 		var got string
 		select {
 		case got = <-ch:
-		case <-time.After(2 * time.Second):
+		case <-time.After(wd(2 * time.Second)):
 			return fail("the call did not return within 2s (blocked)", h["ret"], "blocked")
 		}
 		want := h["ret"].(string)
@@ -129,7 +129,7 @@ func solutionsHandle(c map[string]J) map[string]J {
 	for _, s := range sols {
 		_ = s.Close()
 	}
-	deadline := time.Now().Add(time.Second)
+	deadline := time.Now().Add(wd(time.Second))
 	for runtime.NumGoroutine() > g0 && time.Now().Before(deadline) {
 		time.Sleep(200 * time.Microsecond)
 	}
@@ -213,12 +213,12 @@ func soltraceHandle(c map[string]J) map[string]J {
 		}()
 		select {
 		case <-ch:
-		case <-time.After(2 * time.Second):
+		case <-time.After(wd(2 * time.Second)):
 			return map[string]J{"status": "mismatch", "input": q + " " + strings.Join(desc, " "), "what": "the call did not return within 2s", "expected": "returns", "observed": "blocked", "fatal": true}
 		}
 	}
 	_ = sols.Close()
-	deadline := time.Now().Add(time.Second)
+	deadline := time.Now().Add(wd(time.Second))
 	for time.Now().Before(deadline) {
 		mu.Lock()
 		n := len(events)
